@@ -158,7 +158,7 @@ impl Property for C05 {
         ]
     }
     fn cases(&self, tier: Tier) -> u64 {
-        tier.pick(30_000, 600_000)
+        tier.pick(150_000, 1_500_000)
     }
     fn strategy(&self, tier: Tier) -> BoxedStrategy<Case> {
         let cfg = HistCfg {
